@@ -52,8 +52,10 @@ def run(tier, seed):
     cases = 0
     n = 3 if tier == "thorough" else 2
     seqs = list(itertools.chain.from_iterable(itertools.product(PIECES, repeat=k) for k in range(1, n + 1)))
-    for seq in seqs:
-        src = "".join(seq)
+    # layouts: the pieces as they are, and (single pieces and pairs) at the end of a source with
+    # CRLF line breaks, where a suppressed error has to be located and formatted for the warning
+    layouts = [(seq, "".join(seq)) for seq in seqs] + [(seq, "line\r\n" * 12 + "".join(seq)) for seq in seqs if len(seq) <= (2 if tier == "thorough" else 1)]
+    for seq, src in layouts:
         cases += 1
         sk, so, sw = attempt(Mode.STRICT, src)
         lk, lo, lw = attempt(Mode.LAX, src)
@@ -81,6 +83,9 @@ def run(tier, seed):
                 pass
         if wit:
             viol.append({"id": wit, "witness": wit + ":" + seq[-1][:20], "source": src, "got": got})
+        for mk, mo, mname in ((lk, lo, "lax"), (wk, wo, "warn")):
+            if mk == "other":
+                viol.append({"id": f"{mname}-raises-a-non-liquid-exception", "witness": f"{mname}-non-liquid:" + seq[-1][:20], "source": src, "got": mo})
         if wk != "ok" and wk != "other" and lk == "ok":
             viol.append({"id": "warn-raises", "witness": "warn-raises:" + seq[-1][:20], "source": src, "got": wo})
         if sk == "ok":
